@@ -7,6 +7,7 @@ from vmon import oracle as orc
 from vmon.checks import tokcommon as tc
 from vmon.checks.common import obs, fail
 
+TRACK_CHANNELS = "pieces"   # worker: every fourth case moves each track's notes to another channel
 PROP = "C02"
 MONITORS = ["tokenise"]
 EXHAUSTIVE = False
